@@ -22,16 +22,16 @@ func scenarioConfigs() []*config {
 	return []*config{
 		{
 			Name: "S1-dedup-race", Props: core,
-			Doc:         "two clients, same cacheable action, different invocations, one worker that completes ok or with exit!=0",
+			Doc:         "two clients, same cacheable action, different invocations (the second request with skip_cache_lookup false or true: a request flag, the action stays cacheable), one worker that completes ok or with exit!=0",
 			Predeclared: pre0, MaxTicks: 2,
-			Clients: []clientSpec{{Name: "c1", Calls: []string{"exec A i1"}}, {Name: "c2", Calls: []string{"exec A i2"}}},
+			Clients: []clientSpec{{Name: "c1", Calls: []string{"exec A i1"}}, {Name: "c2", Calls: []string{"exec A i2 skip?"}}},
 			Workers: []workerSpec{{Name: "w1", MaxCalls: 3, Busy: []string{"ok", "fail"}}},
 		},
 		{
 			Name: "S1b-dedup-same-invocation", Props: core,
 			Doc:         "two clients in the same invocation (one operation, two waiters), one of them may leave; the clients use instance name main/x, the platform queue is registered under the strict prefix main (found by longest-prefix match)",
 			Predeclared: pre0, MaxTicks: 3, ClientInstance: "main/x",
-			Clients: []clientSpec{{Name: "c1", Calls: []string{"exec A i1"}, Cancels: 1}, {Name: "c2", Calls: []string{"exec A i1"}}},
+			Clients: []clientSpec{{Name: "c1", Calls: []string{"exec A i1"}, Cancels: 1}, {Name: "c2", Calls: []string{"exec A i1 skip?"}}},
 			Workers: []workerSpec{{Name: "w1", MaxCalls: 3, Busy: []string{"ok", "exec"}}},
 		},
 		{
@@ -68,9 +68,9 @@ func scenarioConfigs() []*config {
 		{
 			Name: "S5-worker-vanishes", Props: core,
 			Bounds: tiny, Shards: 1,
-			Doc:      "worker-created queue; the worker takes the task and vanishes or is slow; the clock passes the worker timeout and the queue timeout while the client waits",
+			Doc:      "worker-created queue (the request that creates it may be malformed: no current_state, rejected, the worker never calls again); the worker takes the task and vanishes or is slow; the clock passes the worker timeout and the queue timeout while the client waits",
 			MaxTicks: 4,
-			Workers:  []workerSpec{{Name: "w1", MaxCalls: 3, Busy: []string{"vanish", "sleep4", "ok"}}},
+			Workers:  []workerSpec{{Name: "w1", MaxCalls: 3, Busy: []string{"vanish", "sleep4", "ok"}, Idle: []string{"idle", "malformed"}}},
 			Clients:  []clientSpec{{Name: "c1", Stage: 1, Calls: []string{"exec A i1"}}},
 		},
 		{
@@ -82,12 +82,12 @@ func scenarioConfigs() []*config {
 		},
 		{
 			Name: "S1d-three-clients", Props: []string{"C01", "C02", "C03"},
-			Doc:         "three clients, two invocations (one of them twice), any of them may leave",
+			Doc:         "three clients, two invocations (one of them twice; the third request has skip_cache_lookup=true), any of them may leave",
 			Predeclared: pre0, MaxTicks: 3, Bounds: b1, Shards: 8, ClientInstance: "main/x/y",
 			Clients: []clientSpec{
 				{Name: "c1", Calls: []string{"exec A i1"}, Cancels: 1},
 				{Name: "c2", Calls: []string{"exec A i2"}, Cancels: 1},
-				{Name: "c3", Calls: []string{"exec A i1"}},
+				{Name: "c3", Calls: []string{"exec A i1 skip"}},
 			},
 			Workers: []workerSpec{{Name: "w1", MaxCalls: 2, Busy: []string{"ok"}}},
 		},
@@ -119,6 +119,40 @@ func scenarioConfigs() []*config {
 				{Name: "c2", Stage: 1, Calls: []string{"sleep 9", "exec A i2"}},
 			},
 			Operators: []operatorSpec{{Name: "op", Stage: 1, Calls: []string{"sleep 2", "list", "killq 0"}}},
+		},
+		{
+			Name: "S9b-queue-removal-three-invocations", Props: []string{"C01", "C02", "C06"},
+			Doc:      "worker-created queue whose only worker synchronizes once and never returns (worker timeout 1, queue timeout 2); three clients of three different tool invocations (two correlated-invocations ids) queue three different actions; the queue is removed at tick 3: every one of the three streams must end with its done message (UNAVAILABLE), nothing may be retained",
+			MaxTicks: 4, WorkerTimeout: 1, QueueTimeout: 2, Bounds: b1, Shards: 4,
+			Workers: []workerSpec{{Name: "w1", MaxCalls: 1, Idle: []string{"pidle"}}},
+			Clients: []clientSpec{
+				{Name: "c1", Stage: 1, Calls: []string{"exec A i1 corrA"}},
+				{Name: "c2", Stage: 1, Calls: []string{"exec B i2 corrA"}},
+				{Name: "c3", Stage: 1, Calls: []string{"exec C i3 corrB"}},
+			},
+		},
+		{
+			Name: "S9c-kill-queue-two-invocations", Props: []string{"C01", "C02", "C06"},
+			Doc:      "as S9b with two clients of two different invocations, but an operator kills everything queued in the worker-less queue (KillOperations with the SizeClassQueueWithoutWorkers filter) one tick after the worker timed out, before the queue is removed",
+			MaxTicks: 3, WorkerTimeout: 1, QueueTimeout: 4, Bounds: b1, Shards: 4,
+			Workers: []workerSpec{{Name: "w1", MaxCalls: 1, Idle: []string{"pidle"}}},
+			Clients: []clientSpec{
+				{Name: "c1", Stage: 1, Calls: []string{"exec A i1"}},
+				{Name: "c2", Stage: 1, Calls: []string{"exec B i2"}},
+			},
+			Operators: []operatorSpec{{Name: "op", Stage: 1, Calls: []string{"sleep 2", "killq 0"}}},
+		},
+		{
+			Name: "S7b-two-drains", Props: []string{"C02", "C06"},
+			Shards: 2,
+			Doc:         "two drains with different worker-id patterns (one matches w1, one matches nobody) are added; w1 then synchronizes idle and sleeps drained (idle synchronization interval 6); a client queues a task; a second operator removes the drain that matches w1 while the other drain remains: w1 must be woken and take the task",
+			Predeclared: pre0, MaxTicks: 2, IdleSync: 6,
+			Operators: []operatorSpec{
+				{Name: "op", Calls: []string{"drain+ zz", "drain+ w1"}},
+				{Name: "op2", Stage: 3, Calls: []string{"drain- w1"}},
+			},
+			Workers: []workerSpec{{Name: "w1", Stage: 1, MaxCalls: 2, Busy: []string{"ok"}}},
+			Clients: []clientSpec{{Name: "c1", Stage: 2, Calls: []string{"exec A i1"}}},
 		},
 		{
 			Name: "S10-retry-limit", Props: core,
@@ -250,11 +284,11 @@ func scenarioConfigs() []*config {
 		{
 			Name: "S21-dynamic-queue-revival", Props: []string{"C01", "C02", "C06"},
 			Bounds: tiny, Shards: 1,
-			Doc:      "worker-created queue whose only worker synchronizes once and vanishes (worker timeout 1: the queue is scheduled for removal 2 ticks later); a NEW worker arrives at any idle moment (before or after the worker timeout / the queue's removal instant) and long-polls for up to 3 ticks; a client's Execute arrives at any later idle moment, the clock runs through the removal instant",
+			Doc:      "worker-created queue whose only worker synchronizes once and vanishes (worker timeout 1: the queue is scheduled for removal 2 ticks later); a NEW worker arrives (its first request well-formed or malformed: no current_state) at any idle moment (before or after the worker timeout / the queue's removal instant) and long-polls for up to 3 ticks; a client's Execute arrives at any later idle moment, the clock runs through the removal instant",
 			MaxTicks: 4, WorkerTimeout: 1, QueueTimeout: 2, IdleSync: 3,
 			Workers: []workerSpec{
 				{Name: "w1", MaxCalls: 1, Idle: []string{"pidle"}},
-				{Name: "w2", Stage: 1, MaxCalls: 3, Busy: []string{"ok", "exec"}},
+				{Name: "w2", Stage: 1, MaxCalls: 3, Busy: []string{"ok", "exec"}, Idle: []string{"idle", "malformed"}},
 			},
 			Clients: []clientSpec{{Name: "c1", Stage: 2, Calls: []string{"exec A i1"}}},
 		},
